@@ -6,6 +6,7 @@ import (
 	"go/ast"
 	"os"
 	"path/filepath"
+	"sort"
 	"strings"
 
 	"nvharness/lib/c17syn"
@@ -24,6 +25,8 @@ func main() {
 		extract(os.Args[2], os.Args[3])
 	case "corr":
 		corr.Main(spec(), os.Args[2:])
+	case "concchild":
+		concChild(os.Args[2:])
 	default:
 		os.Exit(2)
 	}
@@ -37,140 +40,142 @@ type pkgFacts struct {
 	notes                                           []string
 }
 
-var publicLocked = []string{"Get", "Peek", "Exist", "Set", "SetAndGetRemoved", "SetIfAbsent", "Delete", "Clear",
-	"SetCapacity", "Stats", "Length", "Size", "Capacity", "Evictions", "Keys", "Items"}
+// which shape fact(s) a function belongs to (indices into Facts, see Nv/Model/C04.lean)
+var factOf = map[string][]int{
+	".Get": {0, 8}, ".Peek": {0, 8}, ".Exist": {0, 8}, ".Set": {0, 1}, ".SetAndGetRemoved": {0, 3}, ".SetIfAbsent": {0, 8},
+	".Delete": {0, 5}, ".Clear": {0, 6}, ".SetCapacity": {0, 7}, ".Stats": {0, 8}, ".StatsJSON": {0, 8}, ".Length": {0, 8},
+	".Size": {0, 8}, ".Capacity": {0, 8}, ".Evictions": {0, 8}, ".Keys": {0, 8}, ".Items": {0, 8}, ".Init": {7},
+	"NewLRUCache": {7}, "NewSingleLRUCache": {7}, ".updateInPlace": {1}, ".updateInPlaceAndGetRemoved": {3}, ".addNew": {2},
+	".addNewAndGetRemoved": {3}, ".checkCapacity": {4}, ".checkCapacityAndGetRemoved": {4},
+}
 
+const (
+	guardGT   = "for v1 . size > v1 . capacity {"
+	guardGE   = "for v1 . size >= v1 . capacity {"
+	moveV5    = "v1 . list . MoveToFront ( v5 ) ; "
+	siaMove   = "{ v1 . list . MoveToFront ( v4 ) ; } else"
+	siaNoMove = "{ } else"
+	checkCall = "v1 . checkCapacity ( ) ; "
+	pSat      = "v6 := v1 / int64 ( v5 ) ; if v6 < math . MaxInt64 { v6 ++ ; } ;"
+	pPlus     = "v6 := v1 / int64 ( v5 ) + 1 ;"
+)
+
+func canonFuncs(f *gofacts.File) map[string]string {
+	m := map[string]string{}
+	for _, d := range f.AST.Decls {
+		if fd, ok := d.(*ast.FuncDecl); ok {
+			name := fd.Name.Name
+			if fd.Recv != nil {
+				name = "." + name
+			}
+			m[name] = f.Canon(fd)
+		}
+	}
+	return m
+}
+
+// extractPkg compares the WHOLE canonical declaration of every function of <dir>/lru.go and <dir>/wlru.go with the shape
+// the model was written against (shapes.go) or one of the known variants that select a Cfg value. Any other text —
+// an inserted prologue, a reordered statement, an extra or missing function — is unclassified: the fact it belongs to
+// becomes false (and a Cfg field `unknown` / outside `Proved`), which breaks the tie.
 func extractPkg(repo, dir string, tiny bool) pkgFacts {
-	f := gofacts.MustLoad(repo, dir+"/lru.go")
 	var pf pkgFacts
-	note := func(ok bool, what string) bool {
+	for i := range pf.facts {
+		pf.facts[i] = true
+	}
+	bad := func(name string, why string) {
+		pf.notes = append(pf.notes, dir+":"+strings.TrimPrefix(name, ".")+":"+why)
+		idx, ok := factOf[name]
 		if !ok {
-			pf.notes = append(pf.notes, dir+":"+what)
+			idx = []int{0}
 		}
-		return ok
-	}
-	// --- Cfg
-	guard := func(body string) string {
-		switch {
-		case strings.HasPrefix(body, "{ for lru.size > lru.capacity {"):
-			return "gt"
-		case strings.HasPrefix(body, "{ for lru.size >= lru.capacity {"):
-			return "ge"
+		for _, i := range idx {
+			pf.facts[i] = false
 		}
-		return "unknown"
 	}
-	g1, g2 := guard(f.Body("LRUCache", "checkCapacity")), guard(f.Body("LRUCache", "checkCapacityAndGetRemoved"))
-	pf.evict = g1
-	if g1 != g2 {
+	want := shapes[dir+"/lru.go"]
+	got := canonFuncs(gofacts.MustLoad(repo, dir+"/lru.go"))
+	// pick(name, variants…) returns the index of the variant the current text equals (0 = the shape in shapes.go), -1 otherwise
+	pick := func(name string, variants ...string) int {
+		cur, ok := got[name]
+		if !ok {
+			bad(name, "missing")
+			return -1
+		}
+		if cur == want[name] {
+			return 0
+		}
+		for i, v := range variants {
+			if cur == v && v != want[name] {
+				return i + 1
+			}
+		}
+		bad(name, "unclassified body")
+		return -1
+	}
+	for name := range got {
+		if _, ok := want[name]; !ok {
+			bad(name, "function the model does not know")
+		}
+	}
+	lit := func(b bool) string { return gofacts.LeanBool(b) }
+	// Cfg-bearing functions
+	g1 := pick(".checkCapacity", strings.Replace(want[".checkCapacity"], guardGT, guardGE, 1))
+	g2 := pick(".checkCapacityAndGetRemoved", strings.Replace(want[".checkCapacityAndGetRemoved"], guardGT, guardGE, 1))
+	switch {
+	case g1 == 0 && g2 == 0:
+		pf.evict = "gt"
+	case g1 == 1 && g2 == 1:
+		pf.evict = "ge"
+	default:
 		pf.evict = "unknown"
 	}
-	const lookup = "element := lru.table[key] if element == nil { return nil, false } "
-	get, peek := f.Body("LRUCache", "Get"), f.Body("LRUCache", "Peek")
-	getShape := gofacts.Has(get, lookup) && gofacts.Has(get, "return element.Value.(*entry).value, true }")
-	peekShape := gofacts.Has(peek, lookup) && gofacts.Has(peek, "return element.Value.(*entry).value, true }")
-	pf.getMoves = gofacts.LeanBool(gofacts.Has(get, lookup+"lru.list.MoveToFront(element) return"))
-	pf.peekMoves = gofacts.LeanBool(gofacts.Has(peek, "MoveToFront") || gofacts.Has(peek, "PushFront") || gofacts.Has(peek, "MoveBefore"))
-	sia := f.Body("LRUCache", "SetIfAbsent")
-	siaShape := gofacts.Has(sia, "if element := lru.table[key]; element != nil {") && gofacts.Has(sia, "} else { lru.addNew(key, value) } }")
-	pf.siaMoves = gofacts.LeanBool(gofacts.Has(sia, "element != nil { lru.list.MoveToFront(element) } else {"))
-	upd := f.Body("LRUCache", "updateInPlace")
-	pf.updChecks = gofacts.LeanBool(strings.HasSuffix(upd, "lru.list.MoveToFront(element) lru.checkCapacity() }"))
-
-	// --- Facts
-	// 0 every exported method (but Init, StatsJSON) locks first and defers the unlock
-	locked := true
-	for _, d := range f.AST.Decls {
-		fd, ok := d.(*ast.FuncDecl)
-		if !ok || fd.Recv == nil || !ast.IsExported(fd.Name.Name) || fd.Name.Name == "Init" || fd.Name.Name == "StatsJSON" {
-			continue
-		}
-		body := f.Src(fd.Body)
-		if !strings.HasPrefix(body, "{ lru.mu.Lock() defer lru.mu.Unlock() ") {
-			locked = false
-			pf.notes = append(pf.notes, dir+":not-locked:"+fd.Name.Name)
+	pf.getMoves = lit(pick(".Get", strings.Replace(want[".Get"], moveV5, "", 1)) == 0)
+	pf.peekMoves = lit(pick(".Peek", strings.Replace(want[".Peek"], "return v5 . Value", moveV5+"return v5 . Value", 1)) != 0)
+	pf.siaMoves = lit(pick(".SetIfAbsent", strings.Replace(want[".SetIfAbsent"], siaMove, siaNoMove, 1)) == 0)
+	if tiny {
+		// tiny: no re-check after an update today; a trailing checkCapacity is a known (harmless) variant
+		u := pick(".updateInPlace", strings.TrimSuffix(want[".updateInPlace"], "} ;")+checkCall+"} ;")
+		pf.updChecks = lit(u == 1)
+	} else {
+		u := pick(".updateInPlace", strings.Replace(want[".updateInPlace"], checkCall, "", 1))
+		pf.updChecks = lit(u == 0)
+		if pick(".updateInPlaceAndGetRemoved") != 0 || u != 0 {
+			// Set and SetAndGetRemoved must agree on whether an update re-checks (one Cfg bit for both)
+			if u == 1 {
+				bad(".updateInPlaceAndGetRemoved", "differs from updateInPlace")
+			}
 		}
 	}
-	for _, m := range publicLocked {
-		if f.Func("LRUCache", m) == nil {
-			locked = false
-			pf.notes = append(pf.notes, dir+":missing:"+m)
+	// everything else: exactly the known shape
+	for name := range want {
+		switch name {
+		case ".checkCapacity", ".checkCapacityAndGetRemoved", ".Get", ".Peek", ".SetIfAbsent", ".updateInPlace", ".updateInPlaceAndGetRemoved":
+		default:
+			pick(name)
 		}
 	}
-	statsJSON := f.Body("LRUCache", "StatsJSON")
-	locked = locked && gofacts.Has(statsJSON, "l, s, c, e := lru.Stats()")
-	pf.facts[0] = locked
-	// 1 updateInPlace (modulo the optional trailing checkCapacity, which is the Cfg)
-	updCore := strings.TrimSuffix(strings.TrimSuffix(upd, " }"), " lru.checkCapacity()")
-	if tiny {
-		pf.facts[1] = note(updCore == "{ element.Value.(*entry).value = value lru.list.MoveToFront(element)", "updateInPlace")
-	} else {
-		pf.facts[1] = note(updCore == "{ valueSize := int64(value.Size()) sizeDiff := valueSize - element.Value.(*entry).size element.Value.(*entry).value = value element.Value.(*entry).size = valueSize lru.size += sizeDiff lru.list.MoveToFront(element)", "updateInPlace")
+	// wide variant (fact 9): every function of wlru.go, the constructor in either per-shard-capacity form
+	wwant := shapes[dir+"/wlru.go"]
+	wgot := canonFuncs(gofacts.MustLoad(repo, dir+"/wlru.go"))
+	for name, w := range wwant {
+		cur, ok := wgot[name]
+		okShape := ok && cur == w
+		if name == "newWideLRUCache" && ok && !okShape {
+			okShape = cur == strings.Replace(w, pSat, pPlus, 1)
+		}
+		if !okShape {
+			pf.facts[9] = false
+			pf.notes = append(pf.notes, dir+":wlru.go:"+strings.TrimPrefix(name, ".")+":unclassified body")
+		}
 	}
-	set := f.Body("LRUCache", "Set")
-	pf.facts[1] = pf.facts[1] && note(gofacts.Has(set, "if element := lru.table[key]; element != nil { lru.updateInPlace(element, value) } else { lru.addNew(key, value) } }"), "Set")
-	// 2 addNew
-	add := f.Body("LRUCache", "addNew")
-	if tiny {
-		pf.facts[2] = note(add == "{ newEntry := &entry{key, value} element := lru.list.PushFront(newEntry) lru.table[key] = element lru.size++ lru.checkCapacity() }", "addNew")
-	} else {
-		pf.facts[2] = note(add == "{ newEntry := &entry{key, value, int64(value.Size())} element := lru.list.PushFront(newEntry) lru.table[key] = element lru.size += newEntry.size lru.checkCapacity() }", "addNew")
+	for name := range wgot {
+		if _, ok := wwant[name]; !ok {
+			pf.facts[9] = false
+			pf.notes = append(pf.notes, dir+":wlru.go:"+strings.TrimPrefix(name, ".")+":function the model does not know")
+		}
 	}
-	// 3 …AndGetRemoved helpers = plain helpers + collecting the removed values
-	addR := f.Body("LRUCache", "addNewAndGetRemoved")
-	sgr := f.Body("LRUCache", "SetAndGetRemoved")
-	if tiny {
-		pf.facts[3] = note(addR == "{ newEntry := &entry{key, value} element := lru.list.PushFront(newEntry) lru.table[key] = element lru.size++ return lru.checkCapacityAndGetRemoved() }", "addNewAndGetRemoved") &&
-			note(gofacts.Has(sgr, "if element := lru.table[key]; element != nil { lru.updateInPlace(element, value) return nil } else { return lru.addNewAndGetRemoved(key, value) } }"), "SetAndGetRemoved")
-	} else {
-		updR := f.Body("LRUCache", "updateInPlaceAndGetRemoved")
-		wantUpdR := strings.TrimSuffix(strings.TrimSuffix(upd, " }"), " lru.checkCapacity()") + " return lru.checkCapacityAndGetRemoved() }"
-		pf.facts[3] = note(addR == "{ newEntry := &entry{key, value, int64(value.Size())} element := lru.list.PushFront(newEntry) lru.table[key] = element lru.size += newEntry.size return lru.checkCapacityAndGetRemoved() }", "addNewAndGetRemoved") &&
-			note(updR == wantUpdR && pf.updChecks == "true", "updateInPlaceAndGetRemoved") &&
-			note(gofacts.Has(sgr, "if element := lru.table[key]; element != nil { return lru.updateInPlaceAndGetRemoved(element, value) } else { return lru.addNewAndGetRemoved(key, value) } }"), "SetAndGetRemoved")
-	}
-	// 4 eviction body
-	dec := "lru.size -= delValue.size"
-	if tiny {
-		dec = "lru.size--"
-	}
-	cc, ccr := f.Body("LRUCache", "checkCapacity"), f.Body("LRUCache", "checkCapacityAndGetRemoved")
-	evBody := "{ delElem := lru.list.Back() delValue := delElem.Value.(*entry) lru.list.Remove(delElem) delete(lru.table, delValue.key) " + dec + " lru.evictions++ "
-	pf.facts[4] = note(strings.HasSuffix(cc, "lru.capacity "+evBody+"} }"), "checkCapacity") &&
-		note(strings.HasSuffix(ccr, "lru.capacity "+evBody+"removedValueList = append(removedValueList, delValue.value) } return }"), "checkCapacityAndGetRemoved")
-	// 5 Delete
-	del := f.Body("LRUCache", "Delete")
-	ddec := "lru.size -= element.Value.(*entry).size"
-	if tiny {
-		ddec = "lru.size--"
-	}
-	pf.facts[5] = note(gofacts.Has(del, "element := lru.table[key] if element == nil { return false } lru.list.Remove(element) delete(lru.table, key) "+ddec+" return true }"), "Delete")
-	// 6 Clear
-	pf.facts[6] = note(gofacts.Has(f.Body("LRUCache", "Clear"), "lru.list.Init() lru.table = make(map[interface{}]*list.Element) lru.size = 0 }"), "Clear")
-	// 7 SetCapacity, Init
-	pf.facts[7] = note(gofacts.Has(f.Body("LRUCache", "SetCapacity"), "lru.capacity = capacity lru.checkCapacity() }"), "SetCapacity") &&
-		note(f.Body("LRUCache", "Init") == "{ lru.list = list.New() lru.table = make(map[interface{}]*list.Element) lru.capacity = capacity }", "Init") &&
-		note(gofacts.Has(f.Body("", "NewLRUCache"), "var c = &LRUCache{} c.Init(capacity) return c"), "NewLRUCache")
-	// 8 listings, lookups
-	keys, items, stats := f.Body("LRUCache", "Keys"), f.Body("LRUCache", "Items"), f.Body("LRUCache", "Stats")
-	pf.facts[8] = note(gofacts.Has(keys, "for e := lru.list.Front(); e != nil; e = e.Next() { keys = append(keys, e.Value.(*entry).key) } return keys }"), "Keys") &&
-		note(gofacts.Has(items, "for e := lru.list.Front(); e != nil; e = e.Next() { v := e.Value.(*entry) items = append(items, Item{Key: v.key, Value: v.value}) } return items }"), "Items") &&
-		note(gofacts.Has(stats, "return int64(lru.list.Len()), lru.size, lru.capacity, lru.evictions }"), "Stats") &&
-		note(getShape && peekShape && siaShape, "Get/Peek/SetIfAbsent") &&
-		note(gofacts.Has(f.Body("LRUCache", "Exist"), "var _, ok = lru.table[key] return ok }"), "Exist") &&
-		note(gofacts.Has(f.Body("LRUCache", "Length"), "return int64(lru.list.Len()) }") && gofacts.Has(f.Body("LRUCache", "Size"), "return lru.size }") &&
-			gofacts.Has(f.Body("LRUCache", "Capacity"), "return lru.capacity }") && gofacts.Has(f.Body("LRUCache", "Evictions"), "return lru.evictions }"), "Length/Size/Capacity/Evictions")
-	// 9 wide variant
-	w := gofacts.MustLoad(repo, dir+"/wlru.go")
-	nw := w.Body("", "newWideLRUCache")
-	wide := note(gofacts.Has(nw, "w.rehash = remap.NewReMap(opts...) var numbs = w.rehash.Numbs() w.ls = make([]*LRUCache, numbs)") &&
-		gofacts.Has(nw, "for i := uint64(0); i < numbs; i++ { w.ls[i] = NewLRUCache(pSize) }") &&
-		gofacts.Has(nw, "if useXHash { w.calKeyFn = w.rehash.XHashIndex } else { w.calKeyFn = w.rehash.SimpleIndex } return w }"), "newWideLRUCache")
-	wide = wide && note(w.Body("WideLRUCache", "calculateKey") == "{ var i = w.calKeyFn(key) return w.ls[i] }", "calculateKey")
-	for m, call := range map[string]string{"Get": "return w.calculateKey(key).Get(key)", "Peek": "return w.calculateKey(key).Peek(key)",
-		"Exist": "return w.calculateKey(key).Exist(key)", "Set": "w.calculateKey(key).Set(key, value)", "Delete": "return w.calculateKey(key).Delete(key)"} {
-		wide = wide && note(w.Body("WideLRUCache", m) == "{ "+call+" }", "Wide."+m)
-	}
-	pf.facts[9] = wide
+	sort.Strings(pf.notes)
 	return pf
 }
 
